@@ -1,7 +1,7 @@
 (* Property C15 - only statements, each closed by [exact]. *)
 From Coq Require Import NArith List Bool.
 Import ListNotations.
-Require Import UV.C15.Model UV.C15.Proofs.
+Require Import UV.C15.Model UV.C15.Doc UV.C15.GraphF UV.C15.BackTrace UV.C15.Proofs.
 Local Open Scope N_scope.
 
 (* Function names and string arguments: whatever bytes a name consists of, the text that
@@ -176,3 +176,119 @@ Theorem C15_flame_sampled_one_line_per_path : forall sample rootname tids s,
   NoDup (map fst (flame_rows sample (graph_build sample rootname tids s))).
 Proof. exact flame_sampled_one_line_per_path. Qed.
 Print Assumptions C15_flame_sampled_one_line_per_path.
+
+(* ---------------------------------------------------------------------------------------------------------- *)
+(* `dump --chrome` IS VALID JSON.  json_ok is a validator for RFC 8259 texts (push-down automaton over the bytes,
+   strings checked as UTF-8); chrome_doc is the complete text dump_chrome_header / dump_chrome_task_rstack /
+   dump_chrome_footer write (compared byte for byte with the real output on every run).  For EVERY list of tasks
+   and task names (also none), EVERY list of function events (also none: all records filtered out), every function
+   name, string argument / return value and stored command line the text is one JSON document; only the version
+   string and the date (ctime) must be free of quotes, backslashes and control bytes. *)
+Theorem C15_chrome_json_valid : forall comms evts version date cmdline,
+  (forall tc, In tc comms -> fst tc < BIG) -> Forall evt_bounded evts ->
+  forallb plain2 version = true -> forallb plain2 date = true ->
+  json_ok (chrome_doc true comms evts version date cmdline) = true.
+Proof. exact chrome_doc_valid. Qed.
+Print Assumptions C15_chrome_json_valid.
+
+(* ... in particular for the events of any record stream whose ids and time stamps are below 10^40 (any 64-bit
+   value), closing events included; these events are, decoded, the ones C15_chrome_structure speaks about. *)
+Theorem C15_chrome_json_valid_stream : forall tasks comms s args version date cmdline,
+  (forall tp, In tp tasks -> fst tp < BIG /\ snd tp < BIG) -> (forall tc, In tc comms -> fst tc < BIG) ->
+  (forall r, In r s -> fst r < BIG /\ ev_time (snd r) < BIG) ->
+  forallb plain2 version = true -> forallb plain2 date = true ->
+  json_ok (chrome_doc true comms (chrome_evts tasks s args) version date cmdline) = true.
+Proof. exact chrome_stream_doc_valid. Qed.
+Print Assumptions C15_chrome_json_valid_stream.
+
+Theorem C15_chrome_doc_events : forall tasks s args, map cev_of (chrome_evts tasks s args) = chrome_events tasks s.
+Proof. exact chrome_evts_decoded. Qed.
+Print Assumptions C15_chrome_doc_events.
+
+(* the code as found (every metadata event followed by a comma) was NOT valid when no function event is printed *)
+Theorem C15_chrome_json_legacy_refuted :
+  json_ok (chrome_doc false [(100, [112])] [] [118] [100] None) = false
+  /\ json_ok (chrome_doc true [(100, [112])] [] [118] [100] None) = true.
+Proof. exact chrome_doc_legacy_refuted. Qed.
+Print Assumptions C15_chrome_json_legacy_refuted.
+
+(* ---------------------------------------------------------------------------------------------------------- *)
+(* Callees run inside their caller: along every non-empty name path the calls made from the calls on that path
+   last, together, at most as long as those calls (open calls included). *)
+Theorem C15_callees_inside_caller : forall tids s q,
+  wf_stream s = true -> NoDup tids -> (forall r, In r s -> In (fst r) tids) -> q <> [] ->
+  child_time_of q (ref_calls tids s) <= time_path q (ref_calls tids s).
+Proof. exact child_le_time. Qed.
+Print Assumptions C15_callees_inside_caller.
+
+(* Hence the subtraction in the sampled flame count never wraps: when the per-path totals fit 64 bits, (p, c) is a
+   printed line of `dump --flame-graph --sample-time=S` iff the trace has calls along p and
+   c = (total time along p - whole samples shown for the callees) / S is not 0.   (closes C15_flame_sampled_partial) *)
+Theorem C15_flame_sampled : forall sample rootname tids s,
+  wf_stream s = true -> NoDup tids -> (forall r, In r s -> In (fst r) tids) -> sample <> 0 ->
+  (forall p, time_path p (ref_calls tids s) < W64) ->
+  forall p c, In (p, c) (flame_rows sample (graph_build sample rootname tids s)) <->
+    (count_path p (ref_entries [] s) <> 0
+     /\ c = (time_path p (ref_calls tids s) - sampled_child_time sample p (ref_calls tids s)) / sample
+     /\ c <> 0).
+Proof. exact flame_sampled_exact. Qed.
+Print Assumptions C15_flame_sampled.
+
+(* DESIGN.md's bound `sum of count * sample <= total time` is FALSE of the code: 1.2 us of run time, 2 samples of 1 us
+   (replayed on the real uftrace by the tie: `main 1`, `main;f 1`). *)
+Theorem C15_flame_total_bound_refuted :
+  wf_stream overcount_witness = true
+  /\ flame_rows 1000 (graph_build 1000 [] [100] overcount_witness) = [([[109]], 1); ([[109]; [102]], 1)]
+  /\ time_path [[109]] (ref_calls [100] overcount_witness) = 1200.
+Proof. exact flame_total_bound_refuted. Qed.
+Print Assumptions C15_flame_total_bound_refuted.
+
+(* ---------------------------------------------------------------------------------------------------------- *)
+(* `uftrace graph FUNC` (cmds/graph.c with a function argument: start_graph / end_graph / tg->enabled): for EVERY
+   well-formed stream and every name path q, the node reached by q below the root line (FUNC) counts the calls whose
+   name path, cut after the OUTERMOST occurrence of FUNC, is q, and carries the sum of their durations; the root
+   line itself (q = []) counts and times the outermost calls of FUNC.  Recursion of FUNC, several tasks, open calls. *)
+Theorem C15_graph_func_sums : forall func tids s q, wf_stream s = true -> NoDup tids ->
+  calls_at q (graphf_build func tids s) = countf func q (ref_entries [] s)
+  /\ time_at q (graphf_build func tids s) = timef func q (ref_calls tids s) mod W64.
+Proof. exact graphf_sums. Qed.
+Print Assumptions C15_graph_func_sums.
+
+Theorem C15_graph_func_rows : forall func tids s, wf_stream s = true -> NoDup tids ->
+  forall e, In e (walk_root (graphf_build func tids s)) ->
+    n_calls (w_node e) = countf func (w_path e) (ref_entries [] s)
+    /\ n_time (w_node e) = timef func (w_path e) (ref_calls tids s) mod W64
+    /\ n_name (w_node e) = last (w_path e) [].
+Proof. exact graphf_walk_faithful. Qed.
+Print Assumptions C15_graph_func_rows.
+
+Theorem C15_graph_func_rows_complete : forall func tids s, wf_stream s = true -> NoDup tids ->
+  forall q, q <> [] -> countf func q (ref_entries [] s) <> 0 ->
+    exists e, In e (walk_root (graphf_build func tids s)) /\ w_path e = q.
+Proof. exact graphf_walk_complete. Qed.
+Print Assumptions C15_graph_func_rows_complete.
+
+(* The BACKTRACE section of `uftrace graph FUNC` (save_backtrace_addr / save_backtrace_time): functions are symbol
+   indices (an address determines the symbol), isf i = symbol i is called FUNC.  For EVERY stack of symbols q the
+   `hit` printed for q (0 = q is not listed) is the number of outermost entries of FUNC made with exactly that stack,
+   and for every stack that ends in an outermost FUNC the `time` is the total duration of those calls (mod 2^64). *)
+Theorem C15_graph_func_backtraces : forall isf tids s,
+  wf_stream (istream_as_stream s) = true -> NoDup tids ->
+  (forall q, hit_of q (backtraces isf tids s) = ref_bt_hit q (ref_bt_keys isf s))
+  /\ (forall q, outermost isf q = true ->
+        time_of q (backtraces isf tids s) = ref_bt_time q (ref_calls tids (istream_as_stream s)) mod W64).
+Proof. exact backtraces_sums. Qed.
+Print Assumptions C15_graph_func_backtraces.
+
+(* Re-entry of FUNC (direct or mutual recursion, FUNC again after it returned, FUNC in several tasks): the FUNC line
+   counts exactly the entries of FUNC made while no FUNC was running in the same task, i.e. the entries whose name
+   path is pre ++ [FUNC] with FUNC not in pre; nested entries are nodes below the root (C15_graph_func_sums). *)
+Theorem C15_graph_func_root_outermost : forall func tids s, wf_stream s = true -> NoDup tids ->
+  n_calls (graphf_build func tids s) = N.of_nat (length (filter (outer_entry func) (ref_entries [] s))).
+Proof. exact graphf_root_outermost. Qed.
+Print Assumptions C15_graph_func_root_outermost.
+
+Theorem C15_outer_entry_spec : forall func p,
+  rel_path func p = Some [] <-> exists pre, p = pre ++ [func] /\ ~ In func pre.
+Proof. exact rel_path_nil_spec. Qed.
+Print Assumptions C15_outer_entry_spec.
